@@ -120,16 +120,16 @@ func TestVerifDriver(t *testing.T) {
 		}
 	}
 	cases = append(cases,
-		VCase{Ep: "NewClientWrapper/Call", Variant: "default", Wraps: true, Errsig: true, Fb: "default", Res: meth("cd"), Send: call("cd", false)},
-		VCase{Ep: "NewClientWrapper/Call", Variant: "extractor", Options: []string{"WithClientResourceExtractor"}, Wraps: true, Errsig: true, Fb: "default",
+		VCase{Ep: "NewClientWrapper/Call", Side: "client", Variant: "default", Wraps: true, Errsig: true, Fb: "default", Res: meth("cd"), Send: call("cd", false)},
+		VCase{Ep: "NewClientWrapper/Call", Side: "client", Variant: "extractor", Options: []string{"WithClientResourceExtractor"}, Wraps: true, Errsig: true, Fb: "default",
 			Res: custom("ce"), Send: call("ce", false, cEx)},
-		VCase{Ep: "NewClientWrapper/Call", Variant: "fallback", Options: []string{"WithClientBlockFallback"}, Wraps: true, Errsig: true, Fb: "custom",
+		VCase{Ep: "NewClientWrapper/Call", Side: "client", Variant: "fallback", Options: []string{"WithClientBlockFallback"}, Wraps: true, Errsig: true, Fb: "custom",
 			Res: meth("cf"), Send: call("cf", false, cFb)},
-		VCase{Ep: "NewClientWrapper/Call", Variant: "extractor+fallback+outlier-off", Options: []string{"WithClientResourceExtractor", "WithClientBlockFallback", "WithEnableOutlier"},
+		VCase{Ep: "NewClientWrapper/Call", Side: "client", Variant: "extractor+fallback+outlier-off", Options: []string{"WithClientResourceExtractor", "WithClientBlockFallback", "WithEnableOutlier"},
 			Wraps: true, Errsig: true, Fb: "custom", Res: custom("cef"), Send: call("cef", false, cEx, cFb, off)},
-		VCase{Ep: "NewClientWrapper/Call", Variant: "outlier", Options: []string{"WithEnableOutlier"}, Wraps: true, Errsig: true, Fb: "default", Private: true,
+		VCase{Ep: "NewClientWrapper/Call", Side: "client", Variant: "outlier", Options: []string{"WithEnableOutlier"}, Wraps: true, Errsig: true, Fb: "default", Private: true,
 			Res: svc("co"), Send: call("co", true, on)},
-		VCase{Ep: "NewClientWrapper/Call", Variant: "outlier+fallback", Options: []string{"WithEnableOutlier", "WithClientBlockFallback"}, Wraps: true, Errsig: true,
+		VCase{Ep: "NewClientWrapper/Call", Side: "client", Variant: "outlier+fallback", Options: []string{"WithEnableOutlier", "WithClientBlockFallback"}, Wraps: true, Errsig: true,
 			Fb: "custom", Private: true, Res: svc("cof"), Send: call("cof", true, on, cFb)},
 	)
 
@@ -152,20 +152,20 @@ func TestVerifDriver(t *testing.T) {
 		}
 	}
 	cases = append(cases,
-		VCase{Ep: "NewClientWrapper/Stream", Variant: "default", Wraps: true, Errsig: true, Fb: "default", Res: meth("sd"), Send: stream("sd", false)},
-		VCase{Ep: "NewClientWrapper/Stream", Variant: "extractor", Options: []string{"WithStreamClientResourceExtractor"}, Wraps: true, Errsig: true,
+		VCase{Ep: "NewClientWrapper/Stream", Side: "client", Variant: "default", Wraps: true, Errsig: true, Fb: "default", Res: meth("sd"), Send: stream("sd", false)},
+		VCase{Ep: "NewClientWrapper/Stream", Side: "client", Variant: "extractor", Options: []string{"WithStreamClientResourceExtractor"}, Wraps: true, Errsig: true,
 			Fb: "default", Res: custom("se"), Send: stream("se", false, sEx)},
-		VCase{Ep: "NewClientWrapper/Stream", Variant: "fallback", Options: []string{"WithStreamClientBlockFallback"}, Wraps: true, Errsig: true, Fb: "custom",
+		VCase{Ep: "NewClientWrapper/Stream", Side: "client", Variant: "fallback", Options: []string{"WithStreamClientBlockFallback"}, Wraps: true, Errsig: true, Fb: "custom",
 			Res: meth("sf"), Send: stream("sf", false, sFb)},
-		VCase{Ep: "NewClientWrapper/Stream", Variant: "extractor+fallback", Options: []string{"WithStreamClientResourceExtractor", "WithStreamClientBlockFallback"},
+		VCase{Ep: "NewClientWrapper/Stream", Side: "client", Variant: "extractor+fallback", Options: []string{"WithStreamClientResourceExtractor", "WithStreamClientBlockFallback"},
 			Wraps: true, Errsig: true, Fb: "custom", Res: custom("sef"), Send: stream("sef", false, sEx, sFb)},
 	)
 	// the outlier branch of Stream appends slots to the GLOBAL chain on every call: run it last; observed through the
 	// statistic node so that the driver also works once the branch builds a private chain like Call does
 	last = append(last,
-		VCase{Ep: "NewClientWrapper/Stream", Variant: "outlier", Options: []string{"WithEnableOutlier"}, Wraps: true, Errsig: true, Fb: "default",
+		VCase{Ep: "NewClientWrapper/Stream", Side: "client", Variant: "outlier", Options: []string{"WithEnableOutlier"}, Wraps: true, Errsig: true, Fb: "default",
 			Private: true, Res: svc("so"), Send: stream("so", true, on)},
-		VCase{Ep: "NewClientWrapper/Stream", Variant: "outlier+fallback", Options: []string{"WithEnableOutlier", "WithStreamClientBlockFallback"}, Wraps: true,
+		VCase{Ep: "NewClientWrapper/Stream", Side: "client", Variant: "outlier+fallback", Options: []string{"WithEnableOutlier", "WithStreamClientBlockFallback"}, Wraps: true,
 			Errsig: true, Fb: "custom", Private: true, Res: svc("sof"), Send: stream("sof", true, on, sFb)},
 	)
 
@@ -180,12 +180,12 @@ func TestVerifDriver(t *testing.T) {
 		}
 	}
 	cases = append(cases,
-		VCase{Ep: "NewHandlerWrapper", Variant: "default", Wraps: true, Errsig: true, Fb: "default", Res: meth("hd"), Send: handler("hd")},
-		VCase{Ep: "NewHandlerWrapper", Variant: "extractor", Options: []string{"WithServerResourceExtractor"}, Wraps: true, Errsig: true, Fb: "default",
+		VCase{Ep: "NewHandlerWrapper", Side: "server", Variant: "default", Wraps: true, Errsig: true, Fb: "default", Res: meth("hd"), Send: handler("hd")},
+		VCase{Ep: "NewHandlerWrapper", Side: "server", Variant: "extractor", Options: []string{"WithServerResourceExtractor"}, Wraps: true, Errsig: true, Fb: "default",
 			Res: custom("he"), Send: handler("he", hEx)},
-		VCase{Ep: "NewHandlerWrapper", Variant: "fallback", Options: []string{"WithServerBlockFallback"}, Wraps: true, Errsig: true, Fb: "custom",
+		VCase{Ep: "NewHandlerWrapper", Side: "server", Variant: "fallback", Options: []string{"WithServerBlockFallback"}, Wraps: true, Errsig: true, Fb: "custom",
 			Res: meth("hf"), Send: handler("hf", hFb)},
-		VCase{Ep: "NewHandlerWrapper", Variant: "extractor+fallback", Options: []string{"WithServerResourceExtractor", "WithServerBlockFallback"}, Wraps: true,
+		VCase{Ep: "NewHandlerWrapper", Side: "server", Variant: "extractor+fallback", Options: []string{"WithServerResourceExtractor", "WithServerBlockFallback"}, Wraps: true,
 			Errsig: true, Fb: "custom", Res: custom("hef"), Send: handler("hef", hEx, hFb)},
 	)
 
@@ -207,18 +207,18 @@ func TestVerifDriver(t *testing.T) {
 	}
 	only := []string{"ok"}
 	cases = append(cases,
-		VCase{Ep: "NewStreamWrapper", Variant: "default", Fb: "default", Res: meth("wd"), Send: wrap("wd"), Outcomes: only},
-		VCase{Ep: "NewStreamWrapper", Variant: "extractor", Options: []string{"WithStreamServerResourceExtractor"}, Fb: "default",
+		VCase{Ep: "NewStreamWrapper", Side: "server", Variant: "default", Fb: "default", Res: meth("wd"), Send: wrap("wd"), Outcomes: only},
+		VCase{Ep: "NewStreamWrapper", Side: "server", Variant: "extractor", Options: []string{"WithStreamServerResourceExtractor"}, Fb: "default",
 			Res: custom("we"), Send: wrap("we", wEx), Outcomes: only},
-		VCase{Ep: "NewStreamWrapper", Variant: "fallback", Options: []string{"WithStreamServerBlockFallback"}, Fb: "custom",
+		VCase{Ep: "NewStreamWrapper", Side: "server", Variant: "fallback", Options: []string{"WithStreamServerBlockFallback"}, Fb: "custom",
 			Res: meth("wf"), Send: wrap("wf", wFb), Outcomes: only},
-		VCase{Ep: "NewStreamWrapper", Variant: "extractor+fallback", Options: []string{"WithStreamServerResourceExtractor", "WithStreamServerBlockFallback"},
+		VCase{Ep: "NewStreamWrapper", Side: "server", Variant: "extractor+fallback", Options: []string{"WithStreamServerResourceExtractor", "WithStreamServerBlockFallback"},
 			Fb: "custom", Res: custom("wef"), Send: wrap("wef", wEx, wFb), Outcomes: only},
 		// one option list shared by the handler wrapper and the stream wrapper of a service
-		VCase{Ep: "NewStreamWrapper", Variant: "all-server-options", Options: []string{"WithServerResourceExtractor", "WithServerBlockFallback",
+		VCase{Ep: "NewStreamWrapper", Side: "server", Variant: "all-server-options", Options: []string{"WithServerResourceExtractor", "WithServerBlockFallback",
 			"WithStreamServerResourceExtractor", "WithStreamServerBlockFallback"}, Fb: "custom", Res: custom("wall"),
 			Send: wrap("wall", hEx, hFb, wEx, wFb), Outcomes: only},
-		VCase{Ep: "NewStreamWrapper", Variant: "handler-options-only", Options: []string{"WithServerResourceExtractor", "WithServerBlockFallback"},
+		VCase{Ep: "NewStreamWrapper", Side: "server", Variant: "handler-options-only", Options: []string{"WithServerResourceExtractor", "WithServerBlockFallback"},
 			Fb: "default", Res: meth("wh"), Send: wrap("wh", hEx, hFb), Outcomes: only},
 	)
 
